@@ -182,7 +182,8 @@ def run_check(pid, tier, seed, jobs=None, verbose=False):
         seen_keys[k] = seen_keys.get(k, 0) + 1
         if seen_keys[k] > 2:
             continue
-        path = os.path.join(REPLAY_DIR, f"{pid}-{k}-{r['case']['_i']}.json")
+        safe = "".join(ch if ch.isalnum() or ch in "-_." else "_" for ch in k)[:80]
+        path = os.path.join(REPLAY_DIR, f"{pid}-{safe}-{r['case']['_i']}.json")
         with open(path, "w") as f:
             f.write(dumps({"property": pid, "tier": tier, "seed": seed, "case": v.get("replay_case") or r["case"], "violation": v,
                            "observed": r.get("sample")}, indent=1))
@@ -263,6 +264,12 @@ def main(argv=None):
     pid = a.pid.upper()
     if a.worker:
         return worker_main(pid, *a.worker)
-    if a.replay:
-        return replay(pid, a.replay)
-    return run_check(pid, a.tier, a.seed, a.jobs, a.v)
+    try:
+        if a.replay:
+            return replay(pid, a.replay)
+        return run_check(pid, a.tier, a.seed, a.jobs, a.v)
+    except Exception:
+        # a failure of the machinery itself is never a verdict
+        traceback.print_exc()
+        print(f"INCONCLUSIVE: {pid} harness failure")
+        return 2
